@@ -154,6 +154,105 @@ func c12(x *ctx) {
 			}
 		}
 	}
+	// calls that pass a wrong-typed argument for a defaulted parameter of a configured class method (every frame),
+	// directly and - for `new` - through a user subclass of the configured class
+	nDef := 0
+	{
+		var litFor func(ts []string) (ok, wrong string, known bool)
+		litFor = func(ts []string) (ok, wrong string, known bool) {
+			if len(ts) == 0 {
+				return "", "", false
+			}
+			if len(ts) > 1 {
+				// a union parameter: its first alternative is supplied, no wrong value is derived
+				o, _, k := litFor(ts[:1])
+				return o, "", k
+			}
+			switch strings.TrimPrefix(ts[0], "Default") {
+			case "Int", "Integer":
+				return "1", "\"zx\"", true
+			case "String":
+				return "\"zs\"", "7", true
+			case "Float":
+				return "1.5", "\"zx\"", true
+			case "Symbol":
+				return ":zs", "7", true
+			case "Bool":
+				return "true", "7", true
+			case "Untyped":
+				return "1", "", true
+			}
+			return "", "", false
+		}
+		for _, fn := range gen.SortedKeys(core) {
+			var c struct {
+				Frame        string `json:"frame"`
+				Class        string `json:"class"`
+				ClassMethods []struct {
+					Name      string `json:"name"`
+					Arguments []struct {
+						Type       any    `json:"type"`
+						Key        string `json:"key"`
+						IsDefault  bool   `json:"is_default"`
+						IsAsterisk bool   `json:"is_asterisk"`
+					} `json:"arguments"`
+				} `json:"class_methods"`
+			}
+			if json.Unmarshal([]byte(core[fn]), &c) != nil || c.Class == "" || c.Class == "Kernel" || c.Class == "Object" {
+				continue
+			}
+			qual := c.Class
+			switch {
+			case c.Frame == "Builtin" || c.Frame == "":
+			case strings.HasPrefix(c.Frame, "Builtin::"):
+				qual = strings.TrimPrefix(c.Frame, "Builtin::") + "::" + c.Class
+			default:
+				qual = c.Frame + "::" + c.Class
+			}
+			for _, m := range c.ClassMethods {
+				if !regexp.MustCompile(`^[a-z_][a-z0-9_]*[?!]?$`).MatchString(m.Name) {
+					continue
+				}
+				var args []string
+				usable, hasWrong := true, false
+				for _, a := range m.Arguments {
+					ts, isList := a.Type.([]any)
+					if !isList || a.Key != "" || a.IsAsterisk {
+						usable = false
+						break
+					}
+					var tss []string
+					for _, t := range ts {
+						tss = append(tss, fmt.Sprint(t))
+					}
+					okLit, wrongLit, known := litFor(tss)
+					if !known {
+						usable = false
+						break
+					}
+					isDef := a.IsDefault || (len(tss) == 1 && strings.HasPrefix(tss[0], "Default"))
+					if isDef && wrongLit != "" {
+						args = append(args, wrongLit)
+						hasWrong = true
+					} else {
+						args = append(args, okLit)
+					}
+				}
+				if !usable || !hasWrong {
+					continue
+				}
+				call := qual + "." + m.Name + "(" + strings.Join(args, ", ") + ")"
+				body := call + "\n"
+				items = append(items, item{"default-arg:" + call, body, 1})
+				nDef++
+				if m.Name == "new" {
+					body := "class Zqled < " + qual + "\nend\nZqled.new(" + strings.Join(args, ", ") + ")\n"
+					items = append(items, item{"default-arg-subclass:" + call, body, 3})
+					nDef++
+				}
+			}
+		}
+	}
 	// corpus programs that do not reopen configured classes
 	configured := configuredNames(core)
 	classDef := regexp.MustCompile(`(?m)^\s*(?:class|module)\s+([A-Z][A-Za-z0-9:]*)`)
@@ -258,7 +357,7 @@ func c12(x *ctx) {
 			if k == "probe" {
 				if strings.HasPrefix(it.name, "corpus:") {
 					sig += "@" + strings.TrimPrefix(it.name, "corpus:")
-				} else if strings.HasPrefix(it.name, "subclass:") {
+				} else if strings.HasPrefix(it.name, "subclass:") || strings.HasPrefix(it.name, "default-arg") {
 					sig += "@" + it.name
 				} else {
 					sig += "@stmt:" + lastStmt(it.body)
@@ -302,7 +401,7 @@ func c12(x *ctx) {
 			}
 		}
 	}
-	r.Bounds = map[string]any{"alphabet": len(c12Alphabet), "depth": depth, "sequences": nSeq, "subclass_programs": nSub, "corpus_programs": nCorpus, "probe_lines": len(probes)}
+	r.Bounds = map[string]any{"alphabet": len(c12Alphabet), "depth": depth, "sequences": nSeq, "subclass_programs": nSub, "default_argument_programs": nDef,"corpus_programs": nCorpus, "probe_lines": len(probes)}
 	r.Sample(map[string]any{"prelude": c12Prelude, "sequence": "u * 2 ; a.first", "then": "probe block (" + fmt.Sprint(len(probes)) + " lines)"})
 	r.Sample(map[string]any{"probe_lines": probes[:6]})
 	// conformance slice
